@@ -396,6 +396,13 @@ def run_case(unit, case, tier, work, extra_defines=(), witness=False, want_trace
         # verdict
         res.failed = sorted([o for o in res.obligations if o['status'] != 'SUCCESS'],
                             key=lambda o: o['status'] != 'FAILURE')
+        for o in res.failed[:40]:
+            # quote the source line (contract clause / invariant / statement) the obligation sits on
+            try:
+                f, ln = o['location'].rsplit(':', 1)
+                o['source'] = open(f, errors='replace').read().splitlines()[int(ln) - 1].strip()[:240]
+            except Exception:
+                pass
         if not witness:
             if not res.obligations:
                 raise Undecided('%s: zero obligations generated' % res.label)
